@@ -240,6 +240,14 @@ def parts(tier):
                     if len(A) != len(B) and fi:
                         continue
                     yield (D.labelled(A, "abc"), D.labelled(B, "xyz"), fi)
+        # the size axis: long source and target tiers (the cumulative shift runs through every entry)
+        for n in (10, 11, 17, 33, 100, 258):
+            A = tuple((a, b) for a, b, _ in D.long_intervals(n, True))
+            B = tuple((a, b) for a, b, _ in D.long_intervals(n, False))
+            for fi in (0, 1):
+                yield (D.labelled(A, "abc"), D.labelled(B, "xyz"), fi, (0.0, A[-1][1] + 1.0))
+                yield (D.labelled(B, "abc"), D.labelled(A, "xyz"), fi, (0.0, B[-1][1] + 0.5))
+            yield (D.labelled(A, "abc"), D.labelled(B[:-1], "xyz"), 0, (0.0, A[-1][1] + 1.0))
         # source tiers whose span does not start at 0 (negative start; start at the first interval; start after 0)
         for A in sets3:
             if not A:
